@@ -1,5 +1,693 @@
-//! pure-probe suite `names` (see /verif/ARCH.md). STUB — to be replaced.
-use crate::util::Tier;
+//! pure-probe suite `names` (see /verif/ARCH.md): name validation, 8.3 alias generator, LFN checksum,
+//! path splitting, case-insensitive short-name comparison.
+//!
+//! ```text
+//! P names.validate <namehex>                              => 0|10|11
+//! P names.checksum <hex11>                                => n
+//! P names.split    <pathhex>                              => <hex> <hex|none>
+//! P names.gen_new  <namehex>                              => chksum fits lossy baselen <hex11> | PANIC
+//! P names.generate <namehex> <hex11,hex11,…|-> <maxiter>  => <hex11> <iters> | none | PANIC
+//! P names.short_eq <hex11> <namehex>                      => 0|1     (names: ASCII and U+FFFD only)
+//! ```
+use crate::rng::SplitMix64;
+use crate::util::{b, catch, hex, hex_list, hex_str, Tier};
+use fatfs::verif_dir::{lfn_checksum_of, short_name_gen_new, short_name_generate, split_path_probe, validate_long_name_code};
+use fatfs::verif_dirent::short_name_eq;
 use std::io::Write;
 
-pub fn run(_tier: Tier, _seed: u64, _out: &mut dyn Write) {}
+type Sfn = [u8; 11];
+
+// ---------------------------------------------------------------- emitters
+
+fn emit_validate(out: &mut dyn Write, name: &str) {
+    match catch(|| validate_long_name_code(name)) {
+        Some(c) => writeln!(out, "P names.validate {} => {}", hex_str(name), c).unwrap(),
+        None => writeln!(out, "P names.validate {} => PANIC", hex_str(name)).unwrap(),
+    }
+}
+
+fn emit_checksum(out: &mut dyn Write, raw: &Sfn) {
+    match catch(|| lfn_checksum_of(raw)) {
+        Some(c) => writeln!(out, "P names.checksum {} => {}", hex(raw), c).unwrap(),
+        None => writeln!(out, "P names.checksum {} => PANIC", hex(raw)).unwrap(),
+    }
+}
+
+fn emit_split(out: &mut dyn Write, path: &str) {
+    match catch(|| split_path_probe(path)) {
+        Some((a, rest)) => writeln!(
+            out,
+            "P names.split {} => {} {}",
+            hex_str(path),
+            hex_str(&a),
+            rest.map_or("none".to_string(), |r| hex_str(&r))
+        )
+        .unwrap(),
+        None => writeln!(out, "P names.split {} => PANIC", hex_str(path)).unwrap(),
+    }
+}
+
+fn emit_gen_new(out: &mut dyn Write, name: &str) {
+    match catch(|| short_name_gen_new(name)) {
+        Some((chk, fits, lossy, blen, sn)) => writeln!(
+            out,
+            "P names.gen_new {} => {} {} {} {} {}",
+            hex_str(name),
+            chk,
+            b(fits),
+            b(lossy),
+            blen,
+            hex(&sn)
+        )
+        .unwrap(),
+        None => writeln!(out, "P names.gen_new {} => PANIC", hex_str(name)).unwrap(),
+    }
+}
+
+/// runs the real retry loop; returns the alias if one was produced
+fn emit_generate(out: &mut dyn Write, name: &str, existing: &[Sfn], max_iter: u32) -> Option<Sfn> {
+    let items: Vec<Vec<u8>> = existing.iter().map(|e| e.to_vec()).collect();
+    let head = format!("P names.generate {} {} {}", hex_str(name), hex_list(&items), max_iter);
+    match catch(|| short_name_generate(name, existing, max_iter)) {
+        Some(Some((sn, iters))) => {
+            writeln!(out, "{} => {} {}", head, hex(&sn), iters).unwrap();
+            Some(sn)
+        }
+        Some(None) => {
+            writeln!(out, "{} => none", head).unwrap();
+            None
+        }
+        None => {
+            writeln!(out, "{} => PANIC", head).unwrap();
+            None
+        }
+    }
+}
+
+fn emit_short_eq(out: &mut dyn Write, raw: &Sfn, name: &str) {
+    debug_assert!(name.chars().all(|c| (c as u32) < 128 || c == '\u{FFFD}'));
+    match catch(|| short_name_eq(raw, name)) {
+        Some(r) => writeln!(out, "P names.short_eq {} {} => {}", hex(raw), hex_str(name), b(r)).unwrap(),
+        None => writeln!(out, "P names.short_eq {} {} => PANIC", hex(raw), hex_str(name)).unwrap(),
+    }
+}
+
+fn default_max_iter(existing: usize) -> u32 {
+    (existing / 9 + 3) as u32
+}
+
+// ---------------------------------------------------------------- name classes
+
+const SFN_OK: &[u8] = b"ABCDEFGHIJKLMNOPQRSTUVWXYZ0123456789!#$%&'()-@^_`{}~";
+const LONG_ONLY: &[u8] = b"+,;=[]";
+const LOWER: &[u8] = b"abcdefghijklmnopqrstuvwxyz";
+const FORBIDDEN: &[u8] = b"\"*/:<>?\\|\x7f\x00\x01\x1f";
+
+fn rand_from(rng: &mut SplitMix64, set: &[u8], n: usize) -> String {
+    (0..n).map(|_| *rng.pick(set) as char).collect()
+}
+
+fn rand_bmp(rng: &mut SplitMix64) -> char {
+    loop {
+        let v = rng.range(0x80, 0xFFFF) as u32;
+        if let Some(c) = char::from_u32(v) {
+            return c;
+        }
+    }
+}
+
+fn rand_astral(rng: &mut SplitMix64) -> char {
+    char::from_u32(rng.range(0x1_0000, 0x10_FFFF) as u32).unwrap()
+}
+
+/// a character drawn from a mixture of all classes the model distinguishes
+fn rand_mixed_char(rng: &mut SplitMix64) -> char {
+    match rng.below(20) {
+        0..=5 => *rng.pick(LOWER) as char,
+        6..=9 => *rng.pick(SFN_OK) as char,
+        10 => *rng.pick(LONG_ONLY) as char,
+        11 | 12 => '.',
+        13 | 14 => ' ',
+        15 => *rng.pick(FORBIDDEN) as char,
+        16 | 17 => rand_bmp(rng),
+        18 => rand_astral(rng),
+        _ => rng.range(0, 127) as u8 as char,
+    }
+}
+
+fn clean_83(rng: &mut SplitMix64) -> String {
+    let base_len = rng.range(1, 8) as usize;
+    let base = rand_from(rng, SFN_OK, base_len);
+    let ext_len = rng.range(0, 3) as usize;
+    if ext_len == 0 && rng.chance(1, 2) {
+        base
+    } else {
+        let ext = rand_from(rng, SFN_OK, ext_len);
+        format!("{}.{}", base, ext)
+    }
+}
+
+fn long_name(rng: &mut SplitMix64) -> String {
+    let mut set = Vec::new();
+    set.extend_from_slice(SFN_OK);
+    set.extend_from_slice(LOWER);
+    set.extend_from_slice(LOWER);
+    set.extend_from_slice(LONG_ONLY);
+    let base_len = rng.range(1, 40) as usize;
+    let base = rand_from(rng, &set, base_len);
+    let ext_len = rng.range(0, 6) as usize;
+    let ext = rand_from(rng, &set, ext_len);
+    match rng.below(4) {
+        0 => base,
+        1 => format!("{}.{}.{}", base, rand_from(rng, &set, 2), ext),
+        _ => format!("{}.{}", base, ext),
+    }
+}
+
+fn dots_spaces(rng: &mut SplitMix64) -> String {
+    let n = rng.range(1, 14) as usize;
+    (0..n)
+        .map(|_| match rng.below(6) {
+            0 | 1 => '.',
+            2 | 3 => ' ',
+            4 => *rng.pick(LOWER) as char,
+            _ => *rng.pick(SFN_OK) as char,
+        })
+        .collect()
+}
+
+fn mixed_name(rng: &mut SplitMix64) -> String {
+    let n = rng.range(0, 16) as usize;
+    (0..n).map(|_| rand_mixed_char(rng)).collect()
+}
+
+fn fixed_names() -> Vec<String> {
+    let mut v: Vec<String> = [
+        "", ".", "..", "...", "....", " ", "  ", ". .", " .", ". ", "a", "a.", ".a", "a.b", "a..b", "a.b.c", "a.b.", "a. ",
+        " a", "a ", "a .b", "a. b", "Foo", "Foo.b", "Foo.baR", "Foo+1.baR", "ver +1.2.text", ".bashrc.swp", ".foo",
+        "TextFile.Mine.txt", "x.txt", "X", "x", "xy", "xy.z", "\u{e9}", "\u{e9}a", "a\u{e9}", "a.\u{e9}", "\u{e9}.a",
+        "\u{65e5}\u{672c}\u{8a9e}.txt", "a\u{65e5}\u{672c}\u{8a9e}.txt", "a\u{ffff}", "\u{ffff}", "\u{10000}", "a\u{10000}",
+        "a.\u{1f600}", "\u{1f600}", "a\u{7fcf}", "a\u{7fce}", "a\u{7fcd}", "12345678.123", "123456789.123", "12345678.1234",
+        "1234567.12", "abcdefgh", "abcdefghi", "ABCDEFGH.TXT", "ABCDEFGH", "a b.c d", "abc...", "abcdefgh.", "abcdefgh .",
+        "12345678 ", "12345678.", "12345678..", "12345678.123 ", "12345678.123.", "1234567 8", "+", "a+", ",;=[]", "[a]",
+        "a~1", "A~1", "ABCDEF~1", "ABCDEF~1.TXT", "AB12CD~1", "~", "~1", "~1.~1", "_", "__", "a_b", "a*b", "a/b", "a\\b",
+        "a:b", "a?b", "a<b", "a>b", "a|b", "a\"b", "a\u{7f}b", "a\u{0}b", "a\tb", "a\u{80}", "a\u{7f}", "con", "NUL.txt",
+        "A.B.C.D.E.F", ".a.b", "..a", "a..", " . a", "\u{5}abc", "\u{e5}abc", "a\u{e5}", "a\u{5}", "Ab", "aB.Cd",
+    ]
+    .iter()
+    .map(|s| s.to_string())
+    .collect();
+    // byte-length boundaries of `validate_long_name`
+    for n in [1usize, 2, 254, 255, 256, 257, 300] {
+        v.push("a".repeat(n));
+        v.push(format!("{}.txt", "b".repeat(n.saturating_sub(4))));
+    }
+    v.push("\u{e9}".repeat(127)); // 254 bytes
+    v.push(format!("{}a", "\u{e9}".repeat(127))); // 255 bytes
+    v.push("\u{e9}".repeat(128)); // 256 bytes, 128 chars
+    v.push(format!("a{}", "\u{e9}".repeat(127))); // 255 bytes
+    v.push(format!("a{}", "\u{e9}".repeat(128))); // 257 bytes
+    v.push("\u{65e5}".repeat(85)); // 255 bytes
+    v.push(format!("a{}", "\u{65e5}".repeat(85))); // 256 bytes, 86 chars
+    v.push(format!("{}\u{e9}", "a".repeat(254))); // 256 bytes, 255 chars
+    v.push(format!("{}\u{e9}", "a".repeat(253))); // 255 bytes
+    v.push(format!("{}\u{1f600}", "a".repeat(251))); // 255 bytes, astral
+    v.push(format!("{}*", "a".repeat(255))); // too long AND bad char: length wins
+    v.push(format!("{}*", "a".repeat(254))); // 255 bytes, bad char
+    v
+}
+
+/// `c` as first / middle / last character of an otherwise plain name
+fn positions(c: char) -> [String; 3] {
+    [format!("{}bc", c), format!("a{}c", c), format!("ab{}", c)]
+}
+
+// ---------------------------------------------------------------- populations
+
+fn sfn(s: &[u8]) -> Sfn {
+    let mut r = [b' '; 11];
+    r[..s.len().min(11)].copy_from_slice(&s[..s.len().min(11)]);
+    r
+}
+
+fn hex4(x: u16, style: u64) -> [u8; 4] {
+    let s = match style {
+        0 => format!("{:04X}", x),
+        1 => format!("{:04x}", x),
+        2 => {
+            // mixed case
+            let u = format!("{:04X}", x);
+            u.chars().enumerate().map(|(i, c)| if i % 2 == 0 { c.to_ascii_lowercase() } else { c }).collect()
+        }
+        _ => {
+            // "+ABC" is accepted by from_str_radix when the value fits three digits
+            if x < 0x1000 {
+                format!("+{:03X}", x)
+            } else {
+                format!("{:04X}", x)
+            }
+        }
+    };
+    let mut r = [0u8; 4];
+    r.copy_from_slice(s.as_bytes());
+    r
+}
+
+/// state of the real generator for `name`, or None if it panics
+fn gen_state(name: &str) -> Option<(u16, bool, bool, usize, Sfn)> {
+    catch(|| short_name_gen_new(name))
+}
+
+/// the `~d` long-prefix form for the generator state of `name`
+fn long_form(st: &(u16, bool, bool, usize, Sfn), d: u8) -> Sfn {
+    let mut r = [b' '; 11];
+    let p = st.3.min(6);
+    r[..p].copy_from_slice(&st.4[..p]);
+    r[p] = b'~';
+    r[p + 1] = d;
+    r[8..].copy_from_slice(&st.4[8..]);
+    r
+}
+
+/// the prefix+checksum form for checksum `chk`
+fn hash_form(st: &(u16, bool, bool, usize, Sfn), chk: u16, d: u8, style: u64) -> Sfn {
+    let mut r = [b' '; 11];
+    let p = st.3.min(2);
+    r[..p].copy_from_slice(&st.4[..p]);
+    r[p..p + 4].copy_from_slice(&hex4(chk, style));
+    r[p + 4] = b'~';
+    r[p + 5] = d;
+    r[8..].copy_from_slice(&st.4[8..]);
+    r
+}
+
+/// a population that blocks the exact form, the four `~N` forms and the nine hash forms of the first
+/// `rounds` checksums (minus `holes` randomly removed entries), plus `noise` near misses
+fn synth_population(rng: &mut SplitMix64, name: &str, rounds: u32, holes: usize, noise: usize) -> Vec<Sfn> {
+    let st = match gen_state(name) {
+        Some(s) => s,
+        None => return Vec::new(),
+    };
+    let mut v: Vec<Sfn> = Vec::new();
+    v.push(st.4);
+    for d in b'1'..=b'4' {
+        v.push(long_form(&st, d));
+    }
+    let style_mode = rng.below(5);
+    for k in 0..rounds {
+        let chk = st.0.wrapping_add(k as u16);
+        for d in b'1'..=b'9' {
+            let style = if style_mode == 4 { rng.below(4) } else { style_mode };
+            v.push(hash_form(&st, chk, d, style));
+        }
+    }
+    for _ in 0..holes {
+        if v.is_empty() {
+            break;
+        }
+        let i = rng.below(v.len() as u64) as usize;
+        v.remove(i);
+    }
+    for _ in 0..noise {
+        let mut e = match rng.below(6) {
+            0 => long_form(&st, rng.range(b'0' as u64 - 1, b'9' as u64 + 1) as u8),
+            1 => hash_form(&st, st.0.wrapping_add(rng.below(rounds as u64 + 2) as u16), rng.range(b'0' as u64 - 1, b'9' as u64 + 1) as u8, rng.below(4)),
+            2 => hash_form(&st, rng.next_u32() as u16, rng.range(b'1' as u64, b'9' as u64) as u8, rng.below(4)),
+            3 => sfn(clean_83(rng).replace('.', "").as_bytes()),
+            4 => {
+                let mut r = [0u8; 11];
+                for x in r.iter_mut() {
+                    *x = rng.below(256) as u8;
+                }
+                r
+            }
+            _ => long_form(&st, rng.range(b'5' as u64, b'9' as u64) as u8),
+        };
+        // perturb one byte now and then: wrong ext, wrong prefix, tilde moved, non-hex / high byte in the hash
+        if rng.chance(1, 2) {
+            let i = rng.below(11) as usize;
+            e[i] = match rng.below(5) {
+                0 => b'~',
+                1 => rng.range(0x80, 0xFF) as u8,
+                2 => b' ',
+                3 => b'+',
+                _ => *rng.pick(SFN_OK),
+            };
+        }
+        v.push(e);
+    }
+    // shuffle
+    for i in (1..v.len()).rev() {
+        let j = rng.below(i as u64 + 1) as usize;
+        v.swap(i, j);
+    }
+    v
+}
+
+/// grow a population by calling the real generator again and again for names drawn from `names`
+/// (all sharing the 6- and 2-character prefixes); emits a `names.generate` line for the steps selected by `emit`
+fn grow_population(
+    out: &mut dyn Write,
+    rng: &mut SplitMix64,
+    names: &[String],
+    steps: usize,
+    emit: &dyn Fn(usize) -> bool,
+) -> Vec<Sfn> {
+    let mut pop: Vec<Sfn> = Vec::new();
+    for step in 0..steps {
+        let name = rng.pick(names).clone();
+        let max_iter = default_max_iter(pop.len());
+        let alias = if emit(step) {
+            emit_generate(out, &name, &pop, max_iter)
+        } else {
+            catch(|| short_name_generate(&name, &pop, max_iter)).flatten().map(|r| r.0)
+        };
+        match alias {
+            Some(a) => pop.push(a),
+            None => break,
+        }
+    }
+    pop
+}
+
+// ---------------------------------------------------------------- display helper for short_eq
+
+fn display_of(raw: &Sfn) -> Vec<u8> {
+    let nl = raw[..8].iter().rposition(|x| *x != b' ').map_or(0, |p| p + 1);
+    let el = raw[8..].iter().rposition(|x| *x != b' ').map_or(0, |p| p + 1);
+    let mut v = raw[..nl].to_vec();
+    if el > 0 {
+        v.push(b'.');
+        v.extend_from_slice(&raw[8..8 + el]);
+    }
+    if !v.is_empty() && v[0] == 5 {
+        v[0] = 0xE5;
+    }
+    v
+}
+
+fn lossy_string(bytes: &[u8]) -> String {
+    bytes.iter().map(|&x| if x <= 0x7F { x as char } else { '\u{FFFD}' }).collect()
+}
+
+fn random_case(rng: &mut SplitMix64, s: &str) -> String {
+    s.chars()
+        .map(|c| match rng.below(3) {
+            0 => c.to_ascii_lowercase(),
+            1 => c.to_ascii_uppercase(),
+            _ => c,
+        })
+        .collect()
+}
+
+fn rand_raw(rng: &mut SplitMix64) -> Sfn {
+    match rng.below(6) {
+        0 => {
+            let mut r = [0u8; 11];
+            for x in r.iter_mut() {
+                *x = rng.below(256) as u8;
+            }
+            r
+        }
+        1 => {
+            // legal alias shape
+            let mut r = [b' '; 11];
+            let n = rng.range(0, 8) as usize;
+            for x in r[..n].iter_mut() {
+                *x = *rng.pick(SFN_OK);
+            }
+            let e = rng.range(0, 3) as usize;
+            for x in r[8..8 + e].iter_mut() {
+                *x = *rng.pick(SFN_OK);
+            }
+            r
+        }
+        2 => {
+            // embedded / leading spaces, lower case
+            let mut r = [b' '; 11];
+            for x in r.iter_mut() {
+                *x = match rng.below(4) {
+                    0 => b' ',
+                    1 => *rng.pick(LOWER),
+                    _ => *rng.pick(SFN_OK),
+                };
+            }
+            r
+        }
+        3 => {
+            let mut r = sfn(b"ABC");
+            r[0] = *rng.pick(&[0x05u8, 0xE5, 0x00, 0x20, 0x2E, 0x7F, 0x80, 0xFF]);
+            r[8] = *rng.pick(&[b' ', b'X', 0x05, 0x99]);
+            r
+        }
+        4 => {
+            let mut r = [b' '; 11];
+            let i = rng.below(11) as usize;
+            r[i] = rng.below(256) as u8;
+            r
+        }
+        _ => {
+            let mut r = [0u8; 11];
+            for x in r.iter_mut() {
+                *x = rng.range(0x20, 0x7F) as u8;
+            }
+            r
+        }
+    }
+}
+
+// ---------------------------------------------------------------- the suite
+
+pub fn run(tier: Tier, seed: u64, out: &mut dyn Write) {
+    let mut rng = SplitMix64::new(seed ^ 0x6e61_6d65_73); // "names"
+    let quick = tier == Tier::Quick;
+
+    // ---- 1. fixed corpus through every name probe
+    let fixed = fixed_names();
+    for n in &fixed {
+        emit_validate(out, n);
+        emit_gen_new(out, n);
+        emit_generate(out, n, &[], 3);
+        emit_split(out, n);
+    }
+
+    // ---- 2. every byte length 0..=300 (ASCII, 2-byte and 3-byte fillers)
+    for len in 0..=300usize {
+        emit_validate(out, &"a".repeat(len));
+        emit_validate(out, &format!("{}{}", "\u{e9}".repeat(len / 2), "a".repeat(len % 2)));
+        emit_validate(out, &format!("{}{}", "\u{65e5}".repeat(len / 3), "a".repeat(len % 3)));
+        if len % 4 == 0 || (250..=260).contains(&len) {
+            emit_gen_new(out, &"a".repeat(len));
+        }
+    }
+
+    // ---- 3. every ASCII byte at first / middle / last position
+    for v in 0..128u32 {
+        let c = char::from_u32(v).unwrap();
+        for n in positions(c).iter() {
+            emit_validate(out, n);
+            emit_gen_new(out, n);
+            emit_generate(out, n, &[], 3);
+        }
+        let single = c.to_string();
+        emit_validate(out, &single);
+        emit_gen_new(out, &single);
+        // as the only character of the extension / of the base
+        emit_gen_new(out, &format!("ab.{}", c));
+        emit_gen_new(out, &format!("{}.x", c));
+    }
+
+    // ---- 4. every BMP scalar (and a sample of astral ones) at first / middle / last position
+    let gen_stride = tier.pick(16u32, 1u32);
+    let gen_phase = (rng.below(gen_stride as u64)) as u32;
+    for v in 0x80..=0xFFFFu32 {
+        if let Some(c) = char::from_u32(v) {
+            let boundary = matches!(v, 0x80..=0x82 | 0x7FE..=0x801 | 0xD7FE..=0xD7FF | 0xE000..=0xE001 | 0xFFFC..=0xFFFF);
+            for n in positions(c).iter() {
+                emit_validate(out, n);
+                if boundary || v % gen_stride == gen_phase {
+                    emit_gen_new(out, n);
+                }
+            }
+        }
+    }
+    let astral_n = tier.pick(2000, 20000);
+    for i in 0..astral_n {
+        let c = match i {
+            0 => '\u{10000}',
+            1 => '\u{10001}',
+            2 => '\u{10FFFF}',
+            3 => '\u{10FFFE}',
+            4 => '\u{1FFFF}',
+            5 => '\u{20000}',
+            _ => rand_astral(&mut rng),
+        };
+        for n in positions(c).iter() {
+            emit_validate(out, n);
+            if i < 200 {
+                emit_gen_new(out, n);
+            }
+        }
+    }
+
+    // ---- 5. random structured names through validate / gen_new / generate(empty population)
+    let n_rand = tier.pick(6000, 60000);
+    let mut pool: Vec<String> = Vec::new();
+    for i in 0..n_rand {
+        let name = match i % 6 {
+            0 => clean_83(&mut rng),
+            1 | 2 => long_name(&mut rng),
+            3 => dots_spaces(&mut rng),
+            _ => mixed_name(&mut rng),
+        };
+        emit_validate(out, &name);
+        emit_gen_new(out, &name);
+        emit_generate(out, &name, &[], 3);
+        if pool.len() < 400 && gen_state(&name).is_some() {
+            pool.push(name);
+        }
+    }
+
+    // ---- 6. synthesised colliding populations
+    let special: Vec<String> = [
+        "TextFile.Mine.txt", "x.txt", "Foo", "Foo+1.baR", ".foo", ".", "..", "...", " ", "a", "ab", "abc", "a.b", "ABCDEF",
+        "ABCDEFG", "ABCDEFGH", "ABCDEFGHI", "abcdefghi.jklm", "a\u{7fcf}", "a\u{7fce}", "a\u{7fcd}", "a\u{7fc0}", "a b",
+        "a\u{e9}.\u{e9}", "12345678.123", "~1", "A~1", "AB0000~1", "x.y.z",
+    ]
+    .iter()
+    .map(|s| s.to_string())
+    .collect();
+    let n_synth = tier.pick(700, 6000);
+    for i in 0..n_synth {
+        let name = if i < 4 * special.len() { special[i % special.len()].clone() } else { rng.pick(&pool).clone() };
+        let rounds = match rng.below(10) {
+            0 => 0,
+            1..=5 => rng.range(1, 3) as u32,
+            6..=8 => rng.range(4, 12) as u32,
+            _ => rng.range(13, tier.pick(40, 66)) as u32,
+        };
+        let holes = match rng.below(4) {
+            0 => 0,
+            1 => 1,
+            2 => rng.range(2, 5) as usize,
+            _ => rng.range(0, 14) as usize,
+        };
+        let noise = rng.range(0, 12) as usize;
+        let pop = synth_population(&mut rng, &name, rounds, holes, noise);
+        let mi = match rng.below(8) {
+            0 => rng.range(0, 2) as u32,
+            1 => rounds,
+            2 => rounds + 1,
+            _ => default_max_iter(pop.len()),
+        };
+        emit_generate(out, &name, &pop, mi);
+    }
+    // checksum wrap-around 0xFFFF -> 0x0000 across rounds
+    for name in ["a\u{7fcf}", "a\u{7fce}", "a\u{7fcd}"] {
+        for rounds in 0..5u32 {
+            let pop = synth_population(&mut rng, name, rounds, 0, 0);
+            emit_generate(out, name, &pop, default_max_iter(pop.len()));
+        }
+    }
+
+    // ---- 7. populations grown by the real generator
+    // (a) one name created over and over: 5..600 entries
+    let big = tier.pick(330usize, 600usize);
+    let grow_names: Vec<Vec<String>> = vec![
+        vec!["TextFile.Mine.txt".to_string()],
+        vec!["x.txt".to_string()],
+        vec!["TextFile.Mine.txt".to_string(), "TextFile.Yours.txt".to_string(), "TextFiles.txt".to_string(), "TeXtFi".to_string() + " le.txt"],
+        vec![".".to_string()],
+        vec!["a b".to_string(), "a  b".to_string(), "a.b c".to_string()],
+    ];
+    for (k, names) in grow_names.iter().enumerate() {
+        let steps = if k == 0 { big + 5 } else { tier.pick(60, 200) };
+        let dense = tier.pick(30usize, 80usize);
+        grow_population(out, &mut rng, names, steps, &move |s| {
+            s < dense || s % 13 <= 1 || s % 13 == 12 || (quick && s >= big) || (!quick && s % 5 == 0)
+        });
+    }
+    // (b) random names from the pool against a shared, growing directory
+    let mut dir: Vec<Sfn> = Vec::new();
+    let shared = tier.pick(250, 900);
+    for _ in 0..shared {
+        let name = rng.pick(&pool).clone();
+        let mi = default_max_iter(dir.len());
+        if let Some(a) = emit_generate(out, &name, &dir, mi) {
+            dir.push(a);
+        }
+    }
+
+    // ---- 8. checksum
+    emit_checksum(out, &[0u8; 11]);
+    emit_checksum(out, &[0xFFu8; 11]);
+    emit_checksum(out, &sfn(b"FOO     BAR"));
+    for i in 0..11 {
+        for v in [1u8, 0x80, 0xFF] {
+            let mut r = [0u8; 11];
+            r[i] = v;
+            emit_checksum(out, &r);
+        }
+    }
+    for _ in 0..tier.pick(3000, 30000) {
+        let r = rand_raw(&mut rng);
+        emit_checksum(out, &r);
+    }
+
+    // ---- 9. split_path
+    let comps = ["a", "bb", "ccc", "", "", ".", "..", "a b", "\u{e9}", "\u{65e5}\u{672c}", "x.txt", "\u{1f600}", "\\"];
+    for p in ["", "/", "//", "///", "a", "/a", "a/", "/a/", "//a//", "a/b", "a//b", "/a/b/", "a/b/c", "aaa/bbb/ccc", "a/ /b", "\u{e9}/\u{e9}"] {
+        emit_split(out, p);
+    }
+    for _ in 0..tier.pick(3000, 30000) {
+        let n = rng.range(0, 6);
+        let mut p = String::new();
+        for _ in 0..rng.below(3) {
+            p.push('/');
+        }
+        for i in 0..n {
+            if i > 0 {
+                for _ in 0..rng.range(1, 2) {
+                    p.push('/');
+                }
+            }
+            p.push_str(*rng.pick(&comps[..]));
+        }
+        for _ in 0..rng.below(3) {
+            p.push('/');
+        }
+        emit_split(out, &p);
+    }
+
+    // ---- 10. short-name comparison (ASCII / U+FFFD names)
+    for _ in 0..tier.pick(6000, 60000) {
+        let raw = if rng.chance(1, 4) && !dir.is_empty() { *rng.pick(&dir) } else { rand_raw(&mut rng) };
+        let disp = lossy_string(&display_of(&raw));
+        let name = match rng.below(10) {
+            0 => disp.clone(),
+            1..=4 => random_case(&mut rng, &disp),
+            5 => format!("{} ", random_case(&mut rng, &disp)),
+            6 => random_case(&mut rng, &disp).replace('.', ""),
+            7 => {
+                let mut cs: Vec<char> = random_case(&mut rng, &disp).chars().collect();
+                if !cs.is_empty() {
+                    let i = rng.below(cs.len() as u64) as usize;
+                    match rng.below(3) {
+                        0 => {
+                            cs.remove(i);
+                        }
+                        1 => cs[i] = rng.range(0x20, 0x7E) as u8 as char,
+                        _ => cs.insert(i, *rng.pick(&['.', ' ', 'a', '\u{FFFD}'])),
+                    }
+                }
+                cs.into_iter().collect()
+            }
+            8 => lossy_string(&raw[..8]).trim_end().to_string(),
+            _ => {
+                let n = rng.range(0, 12) as usize;
+                (0..n).map(|_| if rng.chance(1, 10) { '\u{FFFD}' } else { rng.range(0, 127) as u8 as char }).collect()
+            }
+        };
+        emit_short_eq(out, &raw, &name);
+    }
+}
